@@ -283,7 +283,7 @@ func runC09(c *sim.Ctx, t *testing.T) {
 				}
 				sort.Ints(bounds)
 				c.Violate("reload:"+class, "history %s from n0/{}: with the state written out as JSON and read back before message(s) %v, message %d ends at %s emitting %s; in memory it ends at %s emitting %s\nstate at the save point: %s\nspec: %s",
-					ref.Canon(hist), bounds, i, got[i].state, got[i].emitted, base[i].state, base[i].emitted, stateCanon(baseStates[first]), specJSON(gs))
+					ref.Canon(hist), bounds, i, got[i].state, got[i].emitted, base[i].state, base[i].emitted, stateCanon(baseStates[vfMinInt(first, len(baseStates)-1)]), specJSON(gs))
 				return
 			}
 		}
@@ -292,4 +292,11 @@ func runC09(c *sim.Ctx, t *testing.T) {
 	c.Path = specJSON(gs) + shape
 	c.Trivial = len(hist) < 2
 	c.Sample = map[string]interface{}{"spec": gs, "history": hist, "nodes_visited": shape, "restart_points": len(plans)}
+}
+
+func vfMinInt(a, b int) int {
+	if a < b {
+		return a
+	}
+	return b
 }
